@@ -998,6 +998,7 @@ def SafeEv (L : List Event) : Event → Prop
   | .unload k => balance k L = 1
   | .close k => balance k L = 0
   | .exec _ _ _ => True
+  | .refused _ _ _ => True
 
 theorem logOK_snoc {L : List Event} (h : LogOK L) (e : Event) (hs : SafeEv L e) : LogOK (L ++ [e]) := by
   refine ⟨?_, ?_⟩
@@ -1019,6 +1020,7 @@ theorem logOK_snoc {L : List Event} (h : LogOK L) (e : Event) (hs : SafeEv L e) 
         · simp [balance, hj]; exact hL
       | close j => simp [balance]; exact hL
       | exec a b c => simp [balance]; exact hL
+      | refused a b c => simp [balance]; exact hL
     · exact h.alt k pre hp
   · intro k pre hp
     rcases List.prefix_concat_iff.mp hp with e' | hp
